@@ -15,4 +15,9 @@ def run(ctx, res):
     res.count("events_matched", strict["stats"].get("events_matched", 0))
     res.floor("C02.str", "hex4_expressions_compared", 1)
     res.floor("C02.struct", "events_matched", 500)
+    # lookup clause: key lookups return the entries carrying the key in source order — by the index rules of C06
+    from . import C06
+    res.rules_run.append("C02.lookup = C06.pair + C06.sorted (the parser appends with push_entry; the index keeps the positions of a key sorted)")
+    C06.pair(ctx, res)
+    C06.sorted_rule(ctx, res)
     res.assumptions.append("json_number::NumberBuf::new_unchecked, SmallString::push and SmallVec::push store what they are given (dependencies)")
